@@ -38,11 +38,13 @@ type rendered struct {
 	Text   string           `json:"text"`
 	Read   SQLRead          `json:"read"`
 	Params []map[string]any `json:"params"`
+	Later  []map[string]any `json:"params_later"` // the same returned slice projected again after later calls of the library
+	raw    []any
 }
 
 func renderBoth(q, df string) (inline, param rendered) {
-	inline = rendered{Read: readSQL(""), Params: []map[string]any{}}
-	param = rendered{Read: readSQL(""), Params: []map[string]any{}}
+	inline = rendered{Read: readSQL(""), Params: []map[string]any{}, Later: []map[string]any{}}
+	param = rendered{Read: readSQL(""), Params: []map[string]any{}, Later: []map[string]any{}}
 	var s string
 	o := guard(func() (string, int, error) {
 		var err error
@@ -76,8 +78,28 @@ func renderBoth(q, df string) (inline, param rendered) {
 		for _, p := range ps {
 			param.Params = append(param.Params, typedParam(p))
 		}
+		param.raw = ps
 	}
 	return
+}
+
+// failingRenders: renders that fail half way (a NUL in the last item of a list, in the upper bound of a range, in the right
+// operand of AND / OR): whatever they leave behind - scratch buffers, pooled slices - must not show in the next render.
+func failingRenders() {
+	qs := []string{"zf:(\"zz1\" OR \"zz2\x00\")", "zf:(7 OR 8 OR \"zz2\x00\")", "zf:[zz1 TO \"zz2\x00\"]", "zf:zz1 AND zg:\"\x00\"", "zf:zz1* OR (zg:7 AND NOT zh:\"\x00\")"}
+	for _, q := range qs { // the parameterized renderer first: where it accepts the NUL it would tidy up after the inline one
+		guard(func() (string, int, error) { s, ps, err := lucene.ToParameterizedPostgres(q); return s, len(ps), err })
+	}
+	for _, q := range qs {
+		guard(func() (string, int, error) { s, err := lucene.ToPostgres(q); return s, len(s), err })
+	}
+}
+
+// disturb: well-formed renders with values of every kind, made after a case's own render: the parameters a call returned
+// belong to the caller and must read the same afterwards (params_later).
+func disturb() {
+	renderBoth("zq:zv AND zr:[101 TO 102] AND zs:zw* AND zt:(zx OR zy OR 103) AND zu:>1.5", "")
+	renderBoth("zq:\"z v\" OR zr:{zz1 TO zz2}", "zdf")
 }
 
 // cmdSQLCases: one case per input line (a JSON object with at least "q"; optional "alt", "df").
@@ -138,8 +160,8 @@ func cmdSQLCases(args []string) {
 				renderBoth(q[i+len(sep):], df+sep+q[:i])
 			}
 		}
+		failingRenders()
 		inline, param := renderBoth(q, df)
-		c["inline"], c["param"] = inline, param
 		pr := r.record(n, q, df)
 		c["parse"] = pr.Outcome
 		c["tree"] = pr.Tree
@@ -149,6 +171,11 @@ func cmdSQLCases(args []string) {
 		} else {
 			c["alt_param"] = map[string]any{"out": "none", "text": ""}
 		}
+		disturb()
+		for _, p := range param.raw {
+			param.Later = append(param.Later, typedParam(p))
+		}
+		c["inline"], c["param"] = inline, param
 		r.write(c)
 		n++
 	}
